@@ -1133,6 +1133,10 @@ class Fn:
             return self.stmts(inner + lst[1:], k, jc) if True else None
         if kind == 'NullStmt':
             return rest()
+        if kind in self.ctx.cfg.get('skip_stmts', {}).get(self.name, []):
+            # C09 ("skip_stmts": {"pvClear": ["CXXForRangeStmt"]}): statements of the listed KINDS in the named function have no effect on
+            # the modelled state (there: the range-for that hands every buffer back to the memory manager); named in NOTES as unmodelled
+            return rest()
         if kind == 'DeclStmt':
             return self.decl(s, rest)
         if kind == 'ReturnStmt':
@@ -1171,6 +1175,28 @@ class Fn:
             return self.if_stmt(s, rest, jc)
         if kind in ('WhileStmt', 'ForStmt'):
             return self.loop(s, rest, jc)
+        if kind == 'CXXForRangeStmt' and self.ctx.cfg.get('range_fold'):
+            # C06: "range_fold": "<prim>": `for (T ref : RANGE) BODY` becomes
+            #   match <prim> RANGE (fun ref => BODY') with Some v => return v | None => <rest> end
+            # where BODY' is BODY with `return e` -> Some e and fall-through / continue -> None; the primitive (a section variable of
+            # type Z -> (Z -> option T) -> option T) is the iteration itself: "first element whose body returns"
+            inner_ = [x for x in s.get('inner', []) if isinstance(x, dict)]
+            rng_decl_, var_decl_, body_ = inner_[1], inner_[-2], inner_[-1]
+            rv_ = [v for v in rng_decl_.get('inner', []) if v.get('kind') == 'VarDecl'][0]
+            rng_init_ = [x for x in rv_.get('inner', []) if isinstance(x, dict) and x.get('kind')][0]
+            rng_ = self.e(rng_init_)
+            lv_ = [v for v in var_decl_.get('inner', []) if v.get('kind') == 'VarDecl'][0]
+            nm_ = coq_ident(lv_['name'])
+            acc_ = self.assigned(body_, set(), set())
+            if acc_:
+                raise TranslationError('range-for body assigns %s (only pure bodies are supported)' % sorted(acc_))
+            saved_ = dict(self.env)
+            self.env[nm_] = ctype(lv_)
+            jc2_ = {'ret': (lambda v: f'Some ({v})'), 'brk': None, 'cont': (lambda: 'None')}
+            btxt_ = self.stmts([body_], lambda: 'None', jc2_)
+            self.env = saved_
+            return (f'match ({self.ctx.cfg["range_fold"]} {rng_} (fun {nm_} =>\n{btxt_})) with\n| Some rv_ => {jc["ret"]("rv_")}\n'
+                    f'| None => (\n{rest()})\nend')
         if kind == 'CXXTryStmt' and self.ctx.cfg.get('try_as_body'):   # C16: exceptions are not modelled: the try block alone
             return self.stmts([s['inner'][0]] + lst[1:], k, jc)
         if kind == 'DoStmt':
@@ -1988,6 +2014,10 @@ def method_decls(spec, name):
         if m.get('kind') in ('CXXMethodDecl', 'CXXConstructorDecl', 'CXXDestructorDecl') and m.get('name') == name and \
                 any(y.get('kind') == 'CompoundStmt' for y in m.get('inner', [])):
             out.append(m)
+        if m.get('kind') == 'FriendDecl':   # C06: friend functions defined inside the class (operator==)
+            for y in m.get('inner', []):
+                if y.get('kind') == 'FunctionDecl' and y.get('name') == name and any(z.get('kind') == 'CompoundStmt' for z in y.get('inner', [])):
+                    out.append(y)
         if m.get('kind') == 'FunctionTemplateDecl' and m.get('name') == name:
             for y in m.get('inner', []):
                 if y.get('kind') == 'CXXMethodDecl' and any(z.get('kind') == 'CompoundStmt' for z in y.get('inner', [])) \
